@@ -42,6 +42,8 @@ type diskImage struct {
 	opKind      string
 }
 
+var fslog = os.Getenv("VERIF_FSLOG") != ""
+
 type simDisk struct {
 	mu          sync.Mutex
 	files       map[string]*sdNode
@@ -88,6 +90,9 @@ func clean(p string) string {
 func (d *simDisk) mut(kind, name string) error {
 	d.ops++
 	d.opKinds[kind]++
+	if fslog {
+		println("FSOP", d.ops, kind, name)
+	}
 	if d.keepLog {
 		d.opLog = append(d.opLog, fmt.Sprintf("%d %s %s", d.ops, kind, name))
 	}
@@ -209,6 +214,40 @@ func (im *diskImage) restore(mode string, rng *prng) *simDisk {
 			// content: synced image overlaid sector-wise by a random subset of newer sectors
 			old := n.synced
 			neu := n.data
+			if rng.chance(50) {
+				// a short write: the bytes changed since the last sync (an append, or the head of a recycled
+				// log file overwritten in place) reached the platter up to some byte, not only up to a
+				// sector boundary; behind the cut the old content stands
+				a := 0
+				for a < len(neu) && a < len(old) && neu[a] == old[a] {
+					a++
+				}
+				b := len(neu)
+				for b > a && b <= len(old) && neu[b-1] == old[b-1] {
+					b--
+				}
+				if a < b {
+					cut := a + rng.intn(b-a+1)
+					if rng.chance(60) {
+						// more often than not only the tail is missing: the last, small records of a group
+						// (a counter, a commit marker) are what a short write separates from the rest
+						tail := b - a
+						if tail > 300 {
+							tail = 300
+						}
+						cut = b - rng.intn(tail+1)
+					}
+					if fslog {
+						println("  TORN", k, "changed", a, b, "cut", cut, "oldlen", len(old), "newlen", len(neu))
+					}
+					out := append([]byte(nil), neu[:cut]...)
+					if len(old) > cut {
+						out = append(out, old[cut:]...)
+					}
+					put(k, out)
+					continue
+				}
+			}
 			out := append([]byte(nil), old...)
 			const sector = 512
 			for off := 0; off < len(neu); off += sector {
@@ -575,6 +614,9 @@ func (f *sdFile) Write(p []byte) (int, error) {
 	defer f.d.mu.Unlock()
 	if err := f.d.mut("write", f.name); err != nil {
 		return 0, err
+	}
+	if fslog {
+		println("  write bytes", len(p), "at", f.wpos)
 	}
 	if f.d.fullAfter > 0 && f.d.totalBytes()+int64(len(p)) > f.d.fullAfter {
 		f.d.failed = append(f.d.failed, fmt.Sprintf("%d write %s: ENOSPC", f.d.ops, f.name))
